@@ -211,7 +211,9 @@ def main(argv=None):
                 p.wait(timeout=max(1.0, deadline - time.time()))
             except subprocess.TimeoutExpired:
                 p.kill(); p.wait()
-                worker_fail.append('worker %s/%d: watchdog timeout after %ds' % (variant, k, timeout))
+                try: curc = open(out + '.cur').read()[:300]
+                except Exception: curc = '?'
+                worker_fail.append('worker %s/%d: watchdog timeout after %ds (case running: %s)' % (variant, k, timeout, curc))
             lf.close()
             logtxt = open(log, errors='replace').read()
             if os.path.exists(out):
